@@ -270,6 +270,84 @@ def check_doc_params(ctx):
             "the search for px lengths no longer covers specified styles and animation steps of every region and content element")
 
 
+def check_special_emission(ctx):
+  """SPECIAL-emit: a writer emits the keyword of a special value ("none", "normal") only for that
+  special value: under an identity test with SpecialValues.<keyword> (or, for component-wise
+  properties, when every component `is False`).  A truthiness test conflates None ("not specified",
+  inherits) with False / the special value."""
+  from ..rules import match
+  ix = ctx.ix
+  sv = ix.cls("ttconv.style_properties:SpecialValues")
+  keywords = {n for n, _ in ix.enum_members(sv)}
+  m = ix.mod(SP)
+  ctx.unit(m)
+  n = 0
+  for f in ix.funcs_in(SP):
+    if f.name != "from_model":
+      continue
+    for c in own_nodes(f.node):
+      if not (isinstance(c, ast.Constant) and isinstance(c.value, str) and c.value in keywords):
+        continue
+      # nearest enclosing conditional and the branch the literal sits in
+      node, guard, positive = c, None, None
+      while node is not f.node:
+        par = parent(node)
+        if isinstance(par, ast.If) and node is not par.test:
+          guard, positive = par.test, any(node is x for x in par.body)
+          break
+        if isinstance(par, ast.IfExp) and node is not par.test:
+          guard, positive = par.test, node is par.body
+          break
+        if isinstance(par, ast.Compare):   # the literal is compared, not emitted
+          guard = "compare"
+          break
+        node = par
+      if guard == "compare":
+        continue
+      n += 1
+      key = f"{f.qualname}|emits {c.value!r}"
+      if guard is None:
+        ctx.bad("SPECIAL-emit", key, ctx.where(m, c), f"{f.short} emits the special keyword {c.value!r} unconditionally")
+        continue
+      rel = match.relation(guard, lambda e: True, lambda e: unparse(e).endswith(f"SpecialValues.{c.value}"))
+      ok = (rel in ("is", "==") and positive) or (rel in ("is not", "!=") and not positive)
+      if not ok and positive:
+        parts = guard.values if isinstance(guard, ast.BoolOp) and isinstance(guard.op, ast.And) else [guard]
+        ok = len(parts) >= 2 and all(match.relation(p_, lambda e: True, lambda e: isinstance(e, ast.Constant) and e.value is False) in ("is", "==") for p_ in parts)
+      ctx.check(ok, "SPECIAL-emit", key, ctx.where(m, c), f"under `{short(guard, 60)}`",
+                f"{f.short} emits {c.value!r} under `{short(guard, 70)}`, which is not an identity test with SpecialValues.{c.value} (nor `every component is False`): "
+                f"unspecified (None) components or other falsy values are written as {c.value!r} and read back differently")
+  ctx.floor("SPECIAL-emit", "special keywords emitted by from_model methods", n, 1)
+
+
+def check_px_scan(ctx):
+  """TRAV: the scan that decides whether the pixel extent is written looks at the specified styles
+  and at the animation steps of every region and every content element."""
+  from ..rules import trav
+  ix = ctx.ix
+  f = ix.func("ttconv.imsc.elements:TTElement.from_model")
+  ctx.unit(f.module)
+  scans = [n for n in own_nodes(f.node) if isinstance(n, ast.For) and any(isinstance(c, ast.Call) and isinstance(c.func, ast.Attribute) and c.func.attr == "has_px" for c in ast.walk(n))]
+  outer = [n for n in scans if any(m is not n and any(x is m for x in ast.walk(n)) for m in scans)]
+  if len(outer) != 1:
+    raise AnalysisError(f"{f.qualname}: the loop over all elements that looks for pixel lengths was not found")
+  lp = outer[0]
+  flag = {unparse(st.targets[0]) for n in ast.walk(lp) for st in [n] if isinstance(st, ast.Assign) and isinstance(st.value, ast.Constant) and st.value.value is True}
+
+  def found_exit(st):
+    # leaving once a pixel length was found is fine: `if has_px: break`
+    p_ = parent(st)
+    return isinstance(st, ast.Break) and isinstance(p_, ast.If) and unparse(p_.test) in flag
+  n = trav.check_loop_reached(ctx, f, lambda x: isinstance(x, ast.For) and unparse(x.iter).endswith(".iter_styles()"), "specified styles of every element are scanned for pixel lengths", scope=lp, allowed_exit=found_exit)
+  n += trav.check_loop_reached(ctx, f, lambda x: isinstance(x, ast.For) and unparse(x.iter).endswith(".iter_animation_steps()"), "animation steps of every element are scanned for pixel lengths", scope=lp, allowed_exit=found_exit)
+  ctx.floor("TRAV", "scans in the pixel-length loop", n, 2)
+  # the list that is scanned holds every region and every element of the body
+  src = unparse(lp.iter)
+  t = unparse(f.node)
+  ctx.check("iter_regions()" in t and "dfs_iterator()" in t, "TRAV", f"{f.qualname}|regions and all body elements are scanned", ctx.where(f.module, lp), f"`{src}` is filled from iter_regions() and dfs_iterator()",
+            "the pixel-length scan no longer covers all regions and all elements of the body")
+
+
 def run(ctx):
   ix = ctx.ix
   check_writer_dispatch(ctx)
@@ -277,6 +355,9 @@ def run(ctx):
   check_time_formats(ctx)
   check_list_separators(ctx)
   check_doc_params(ctx)
+  check_px_scan(ctx)
+  check_special_emission(ctx)
   fs = common.funcs(ctx, ["ttconv.time_code"]) + [ix.func("ttconv.imsc.attributes:to_time_format")]
   n = exa.check_exactness(ctx, fs, rule="EXA", exempt=common.EXA_EXEMPT, trunc_scope=common.time_trunc_scope(ctx))
   ctx.floor("EXA", "truncation sinks on the writer's time path", n, 10)
+  common.check_history_independence(ctx, ["ttconv.imsc.writer", "ttconv.imsc.reader", "ttconv.imsc.elements", "ttconv.imsc.attributes", "ttconv.imsc.utils", "ttconv.imsc.style_properties", "ttconv.imsc.config", "ttconv.time_code", "ttconv.utils"])
